@@ -1,10 +1,12 @@
 (* C04 -- ThresholdOptimizer equalises the constrained metric exactly on the training data.
-   Only statements, `exact`, and Print Assumptions.  Gen_metricdict / Gen_hull are regenerated from
-   /repo on every run; the first four theorems tie the model's metric table, derived confusion-matrix
-   fields, hull drop test and interpolation formulas to them. *)
+   Only statements, `exact`, and Print Assumptions.  Gen_metricdict / Gen_hull / Gen_threshopt are regenerated
+   from /repo on every run; the first theorems tie the model's metric table, derived confusion-matrix
+   fields, hull drop test, interpolation formulas, tradeoff-point construction and the optimisation step
+   (group weights, accumulation, arg-max, row selection, pointwise min, objective counts, p_ignore) to them. *)
 From Coq Require Import QArith ZArith List Bool.
 From FL Require Import Num Tradeoff Tradeoff_proofs Hull Hull_proofs Interp Interp_proofs ThreshOpt ThreshOpt_proofs.
-From FLGen Require Gen_metricdict Gen_hull.
+From FL Require Import ThreshOptSrc ThreshOptSrc_proofs.
+From FLGen Require Gen_metricdict Gen_hull Gen_threshopt.
 Import ListNotations.
 Open Scope Q_scope.
 
@@ -25,6 +27,91 @@ Theorem C04_interp_formulas_are_source : forall h i x,
   iy r = Gen_hull.interp_y (ip0 r) (ip1 r) (py a) (py b) /\ iop0 r = pop a /\ iop1 r = pop b.
 Proof. intros; repeat split; reflexivity. Qed.
 Print Assumptions C04_interp_formulas_are_source.
+
+(* ---- the optimisation step is the source's (Gen_threshopt, regenerated from _threshold_optimizer.py) ---- *)
+(* simple constraints: the fit re-assembled from the regenerated tags (i_best = FIRST ARG-MAX of the summed curve,
+   every group's row read at that ONE COMMON index of its own interpolated curve, Bunch fields p0/operation0/
+   p1/operation1 from the columns of the same name) IS fit_simple; the regenerated arithmetic (overall = 0 * x_grid,
+   p = len(group) / n, overall += p * curve.y) is the model's frequency-weighted sum *)
+Theorem C04_optimisation_is_source : forall flip mx my N gs,
+  let f := fit_simple flip mx my N gs in
+  fit_simple_src Gen_threshopt.simple_select Gen_threshopt.simple_index flip mx my N gs = f /\
+  simple_rules_src Gen_threshopt.simple_bunch f = simple_rules f /\
+  (forall x, Gen_threshopt.simple_init x == 0) /\
+  (forall acc p y, Gen_threshopt.simple_acc acc p y == acc + p * y) /\
+  (total_rows gs <> 0%nat -> forall g,
+     gweight gs g == Gen_threshopt.simple_weight (inject_Z (Z.of_nat (length g))) (inject_Z (Z.of_nat (total_rows gs)))).
+Proof.
+  intros flip mx my N gs f. split; [reflexivity|]. split; [reflexivity|].
+  split; [intro x; unfold Gen_threshopt.simple_init; ring|].
+  split; [intros acc p y; unfold Gen_threshopt.simple_acc; ring|].
+  intros Hn g. rewrite (gweight_ratio gs g Hn). unfold Gen_threshopt.simple_weight. reflexivity.
+Qed.
+Print Assumptions C04_optimisation_is_source.
+
+(* the accumulation loop run with the regenerated expressions gives (up to ==) the model's overall curve, and the
+   regenerated selection applied to it is the model's i_best *)
+Theorem C04_accumulation_is_source : forall flip mx my N gs, total_rows gs <> 0%nat ->
+  let ov := overall_curve_src Gen_threshopt.simple_init Gen_threshopt.simple_weight Gen_threshopt.simple_acc
+                              gs (map (group_curve flip mx my N) gs) (grid N) in
+  Forall2 Qeq ov (fs_overall (fit_simple flip mx my N gs)) /\
+  select_src Gen_threshopt.simple_select ov = fs_best (fit_simple flip mx my N gs).
+Proof.
+  intros flip mx my N gs Hn.
+  assert (Hi : forall x, Gen_threshopt.simple_init x == 0) by (intro; unfold Gen_threshopt.simple_init; ring).
+  assert (Hw : forall a b, ~ b == 0 -> Gen_threshopt.simple_weight a b == a / b)
+    by (intros a b Hb; unfold Gen_threshopt.simple_weight; field; exact Hb).
+  assert (Ha : forall a p y, Gen_threshopt.simple_acc a p y == a + p * y)
+    by (intros; unfold Gen_threshopt.simple_acc; ring).
+  split; [exact (overall_curve_src_model _ _ _ gs _ N Hn Hi Hw Ha)
+         | exact (simple_best_src_model _ _ _ flip mx my N gs Hn Hi Hw Ha)].
+Qed.
+Print Assumptions C04_accumulation_is_source.
+
+(* equalized odds: ROC curves of the metrics _tradeoff_curve defaults to, POINTWISE MIN over the groups, objective =
+   METRIC_DICT[objective] of the counts built from the overall label counts, first arg-max, common index,
+   p_ignore with its on-the-diagonal branch, prediction_constant = x_best: re-assembled from the regenerated pieces
+   it IS fit_eo *)
+Theorem C04_eo_optimisation_is_source : forall flip obj N gs,
+  fit_eo_src Gen_threshopt.eo_x_metric Gen_threshopt.eo_y_metric Gen_threshopt.eo_reduce Gen_threshopt.eo_select
+             Gen_threshopt.eo_index Gen_threshopt.eo_const Gen_threshopt.eo_bunch Gen_threshopt.eo_n_negative
+             Gen_threshopt.eo_counts Gen_threshopt.eo_p_ignore flip obj N gs
+  = fit_eo flip obj N gs.
+Proof. intros; reflexivity. Qed.
+Print Assumptions C04_eo_optimisation_is_source.
+
+(* _calculate_tradeoff_points: the operations list per threshold ('>' on the actual counts, and the flipped '<' ONLY
+   when flip), the two confusion matrices, the (x, y) sort order, the degenerate-label guard, the midpoint rule
+   (model: doubled integers) together with ThresholdOperation.__call__, and the searchsorted side *)
+Theorem C04_tradeoff_points_are_source :
+  (forall flip mx my nneg npos e,
+     points_at_src Gen_threshopt.tp_actual Gen_threshopt.tp_flipped Gen_threshopt.tp_ops_flip
+                   Gen_threshopt.tp_ops_noflip flip mx my nneg npos e = points_at flip mx my nneg npos e) /\
+  (forall a b, sort_leb Gen_threshopt.tp_sort_ascending Gen_threshopt.tp_sort_keys a b = pt_leb a b) /\
+  (forall g, both_labels g = negb (Gen_threshopt.tp_degenerate (count_label true g) (count_label false g))) /\
+  (forall s s', thr_q (s + s') == Gen_threshopt.tp_midpoint (inject_Z s) (inject_Z s')) /\
+  (forall k w s, apply_op (mkop k (TMid w)) s
+                 = apply_op_q Gen_threshopt.op_gt Gen_threshopt.op_lt k (thr_q w) (inject_Z s)) /\
+  (forall xs x, searchsorted_src Gen_threshopt.interp_side xs x = ss_right xs x).
+Proof.
+  split; [exact points_at_src_model|]. split; [exact key_leb_model|].
+  split; [intro g; rewrite both_labels_guard; unfold Gen_threshopt.tp_degenerate;
+          destruct (count_label true g =? 0)%Z, (count_label false g =? 0)%Z; reflexivity|].
+  split; [intros s s'; rewrite thr_q_mid; unfold Gen_threshopt.tp_midpoint; field|].
+  split; [exact apply_op_mid | exact searchsorted_src_model].
+Qed.
+Print Assumptions C04_tradeoff_points_are_source.
+
+(* every metric SIMPLE_CONSTRAINTS maps a constraint name to satisfies the premise of C04_simple_parity, and every
+   member of OBJECTIVES_FOR_EQUALIZED_ODDS the premise of C05_eo_optimal *)
+Theorem C04_admitted_configurations_are_source :
+  Forall constraint_metric Gen_threshopt.simple_constraint_metrics /\
+  Forall (fun o => o = Acc \/ o = BalAcc) Gen_threshopt.eo_objectives.
+Proof.
+  split; [unfold Gen_threshopt.simple_constraint_metrics; repeat (apply Forall_cons; [exact I|]); apply Forall_nil
+         | unfold Gen_threshopt.eo_objectives; repeat (apply Forall_cons; [auto|]); apply Forall_nil].
+Qed.
+Print Assumptions C04_admitted_configurations_are_source.
 
 (* ---- interp_index_valid ---- *)
 (* every row k <= N of a hull's interpolated curve mixes two ADJACENT hull vertices i, i+1 with x_i < x_{i+1},
